@@ -108,6 +108,8 @@ func lenFactsAt(pc *PathConds, b *ssa.BasicBlock) map[ssa.Value]int64 {
 				case token.EQL:
 					if v {
 						lb = kk
+					} else if kk == 0 {
+						lb = 1
 					}
 				case token.NEQ:
 					if !v {
